@@ -753,6 +753,23 @@ Definition is_int_ty (sch : schema) (t : ty) : bool :=
 Definition scalar_zero (sch : schema) (t : ty) : bool :=
   match zero_of sch t with Some _ => true | None => false end.
 
+Definition field_ty (sch : schema) (tn f : string) : option ty :=
+  match tentry_of sch tn with Some (mkTentry (DStruct fds) _) => assoc f fds | _ => None end.
+
+Definition t_partp : ty := TPtr (TNamed "PartitionStatus").
+Definition t_u64 : ty := TInt "uint64".
+Definition t_i64 : ty := TInt "int64".
+
+(* maxlag: nil-safe read of CurrentLag through a *PartitionStatus *)
+Definition ty_maxlag (sch : schema) (arg : option sty) : option sty :=
+  match arg, field_ty sch "PartitionStatus" "CurrentLag" with
+  | Some sa, Some ft => if ty_eqb (s_ty sa) t_partp && ty_eqb ft t_u64 then Some (mkSty t_u64 None false) else None
+  | _, _ => None
+  end.
+
+Definition is_t_int (o : option sty) : bool :=
+  match o with Some sa => ty_eqb (s_ty sa) t_int | None => false end.
+
 (* the calls the checker accepts, by shape; [fed]: static type of the value fed by the pipeline *)
 Definition ty_call (sch : schema) (facts : list path) (dot : sty) (name : string) (args : list arg)
            (fed : option sty) : option sty :=
@@ -778,6 +795,21 @@ Definition ty_call (sch : schema) (facts : list path) (dot : sty) (name : string
   | Some FJson, [a], None =>
       match ty_operand sch facts dot a with Some _ => Some (mkSty TStr None true) | None => None end
   | Some FJson, [], Some _ => Some (mkSty TStr None true)
+  | Some FMaxlag, [a], None => ty_maxlag sch (ty_operand sch facts dot a)
+  | Some FMaxlag, [], Some s => ty_maxlag sch (Some s)
+  | Some FAdd, [a; b], None | Some FMinus, [a; b], None | Some FMul, [a; b], None =>
+      if is_t_int (ty_operand sch facts dot a) && is_t_int (ty_operand sch facts dot b)
+      then Some (mkSty t_int None false) else None
+  | Some FDiv, [a; AInt z], None =>   (* only a literal, non-zero divisor: anything else may divide by zero *)
+      if is_t_int (ty_operand sch facts dot a) && negb (z =? 0)%Z then Some (mkSty t_int None false) else None
+  | Some FFmtTs, [a; AStr _], None =>
+      match a with
+      | AInt _ => Some (mkSty TStr None false)
+      | _ => match ty_operand sch facts dot a with
+             | Some sa => if ty_eqb (s_ty sa) t_i64 then Some (mkSty TStr None false) else None
+             | None => None
+             end
+      end
   | _, _, _ => None
   end.
 
